@@ -215,3 +215,49 @@ def extract_slot():
         ORDropLoad=_ord2(a_rd[0][1][0], "load"),
         ORDropRmw=_ord2(a_rd[1][1][0], "rmw"),
     )
+
+
+# ---------------------------------------------------------------------------------------------------------------------
+# CachedRwLock (CachedRwLock.tla): structural parameters
+CRW = REPO + "/nexosim/src/util/cached_rw_lock.rs"
+
+
+def _block_after(body, start):
+    """(begin, end) offsets of the brace block that starts at or after offset `start`"""
+    j = body.find("{", start)
+    depth, k = 0, j
+    while k < len(body):
+        if body[k] == "{":
+            depth += 1
+        elif body[k] == "}":
+            depth -= 1
+            if depth == 0:
+                return j, k
+        k += 1
+    raise ToolError("unbalanced braces")
+
+
+def extract_crw():
+    src = _strip_comments(open(CRW).read())
+    write = _body(src, "pub(crate) fn write(&mut self)")
+    lock_w = write.find(".lock()")
+    store_w = write.find("epoch.store(")
+    if lock_w < 0 or store_w < 0 or "epoch.load(" not in write:
+        raise ToolError("specification out of date: CachedRwLock::write no longer locks the shared value and bumps the epoch")
+    res = dict(BumpUnderLock=lock_w < store_w)
+    refresh = []
+    for header in ("pub(crate) fn write_scratchpad(&mut self)", "pub(crate) fn read(&mut self)"):
+        b = _body(src, header)
+        m = re.search(r"match\s+self\s*\.\s*shared\s*\.\s*value\s*\.\s*lock\s*\(\s*\)", b)
+        loads = [x.start() for x in re.finditer(r"epoch\s*\.\s*load\s*\(", b)]
+        clone = b.find("shared.clone()")
+        if not m or len(loads) != 2 or clone < 0 or "!= self.epoch" not in b.replace("\n", " "):
+            raise ToolError(f"specification out of date: the refresh path of CachedRwLock ({header.split('fn ')[1].split('(')[0]}) changed shape")
+        beg, end = _block_after(b, m.end())
+        # the first load is the unlocked check; the copy and the second load must sit inside the match on the lock result
+        # ... with the guard still alive: no drop(<guard>) between the lock and the second load
+        g = re.search(r"LockResult::Ok\((\w+)\)\s*=>", b[beg:end])
+        dropped = bool(g) and re.search(r"\bdrop\s*\(\s*" + re.escape(g.group(1)) + r"\s*\)", b[beg:loads[1]]) is not None
+        refresh.append(loads[0] < m.start() and beg < clone < end and beg < loads[1] < end and not dropped)
+    res["RefreshUnderLock"] = all(refresh)
+    return res
